@@ -3,22 +3,23 @@
 apply, run the property's quick check (thorough too if quick stays silent), undo.  Records the outcome in
 meta.json under "current" and prints the catch table.  usage: seed_rerun.py [name-prefix ...]"""
 import json, os, subprocess, sys, time
-V = '/verif'
+V = os.path.dirname(os.path.dirname(os.path.abspath(__file__)))
+R = os.environ.get('VERIF_REPO', '/repo')
 def sh(cmd, cwd=None, timeout=4000):
     p = subprocess.run(cmd, shell=True, cwd=cwd, capture_output=True, text=True, timeout=timeout)
     return p.returncode, (p.stdout + p.stderr)
 names = sorted(os.listdir(os.path.join(V, 'seeded')))
 if sys.argv[1:]:
     names = [n for n in names if any(n.startswith(a) for a in sys.argv[1:])]
-rc, o = sh('git -C /repo status --porcelain')
+rc, o = sh(f'git -C {R} status --porcelain')
 if o.strip():
-    print('/repo is not clean'); sys.exit(2)
+    print(R, 'is not clean'); sys.exit(2)
 rows = []
 for name in names:
     d = os.path.join(V, 'seeded', name)
     meta = json.load(open(os.path.join(d, 'meta.json')))
     pid = meta['property']
-    rc, o = sh(f'git -C /repo apply {d}/patch.diff')
+    rc, o = sh(f'git -C {R} apply {d}/patch.diff')
     if rc != 0:
         print(name, 'patch does not apply', o); continue
     cur = {}
@@ -31,7 +32,7 @@ for name in names:
             if rc == 1:
                 break
     finally:
-        sh('git -C /repo checkout -- .')
+        sh(f'git -C {R} checkout -- .')
     meta['current'] = cur
     json.dump(meta, open(os.path.join(d, 'meta.json'), 'w'), indent=1, ensure_ascii=False)
     caught = next((t for t in ('quick', 'thorough') if cur.get(t, {}).get('exit') == 1), 'MISSED')
